@@ -99,3 +99,15 @@ fn incr_accepts_non_canonical_integers() {
     assert!(b.starts_with("Error"), "{}", b);
     assert!(c.starts_with("Error"), "{}", c);
 }
+
+// observation (KEYS replies are NOT under contract in this unit: the glob matcher is left out): Redis' glob syntax has
+// `\x` = "match x literally"; the matcher treats the backslash as an ordinary character
+#[test]
+fn keys_backslash_escape() {
+    let mut ex = CommandExecutor::new();
+    set(&mut ex, "h*llo", "1");
+    set(&mut ex, "hello", "2");
+    let r = s(&mut ex, Command::Keys("h\\*llo".to_string()));
+    eprintln!("SET h*llo 1; SET hello 2; KEYS h\\*llo -> {}   (Redis: [\"h*llo\"])", r);
+    assert_eq!(r, format!("{:?}", RespValue::Array(Some(vec![RespValue::BulkString(Some(b"h*llo".to_vec()))]))));
+}
